@@ -166,6 +166,8 @@ def run(ctx, rep):
     n_loops = check_loops(fx, rep, "C12.loops", seen)
     rep.floor("C12.loops", n_loops, 4, "loops on the reader paths (7 counted)")
     check_forbidden(fx, rep, "C12.borrow", seen)
+    import recursion as RC
+    RC.check_recursion(fx, rep, "C12.rec", seen)
     # public signatures: query results borrow (no owned String smuggled as &'static)
     for what, cands in A.cache_query_roots(fx).items():
         for p in cands:
@@ -181,5 +183,5 @@ def run(ctx, rep):
         rep.configs.append("uuid")
         roots_u = [p for cands in A.cache_query_roots(fu).values() for p in cands]
         CR.run_census(fu, rep, "C12.census", roots_u, policy, sfx="@uuid")
-    rep.assumptions += ["allocation failure / stack exhaustion out of scope",
+    rep.assumptions += ["allocation failure out of scope; stack depth: only data-driven recursion is excluded (C12.rec), the depth of a nested StackTrace argument is the caller's",
                         "std functions outside sa/census.py's panicking table do not panic on these argument types"]
